@@ -82,6 +82,7 @@ type RevEntry struct {
 
 type CRLSpec struct {
 	Version          int // 0 = field absent (v1), 2 = v2 (encoded 1), 3 = v3 (encoded 2, must be rejected)
+	RawVersion       *byte // overrides Version: the version field is an INTEGER of this one content octet
 	Alg              SigAlg
 	InnerAlg         *SigAlg // tbs.signature if different from outer
 	IssuerRaw        []byte  // DER RDNSequence
@@ -226,7 +227,9 @@ func addAlg(b *cryptobyte.Builder, a SigAlg) {
 func (s *CRLSpec) TBS() []byte {
 	var b cryptobyte.Builder
 	b.AddASN1(cbasn1.SEQUENCE, func(b *cryptobyte.Builder) {
-		if s.Version > 0 {
+		if s.RawVersion != nil {
+			b.AddASN1(cbasn1.INTEGER, func(b *cryptobyte.Builder) { b.AddBytes([]byte{*s.RawVersion}) })
+		} else if s.Version > 0 {
 			b.AddASN1Int64(int64(s.Version - 1))
 		}
 		inner := s.Alg
